@@ -27,6 +27,7 @@ type memConn struct {
 	reads    int
 	readFail int // fail the k-th read and later; -1: never
 	closes   int
+	pushed   int // number of client chunks handed to the transport so far
 }
 
 func newMemConn() *memConn {
@@ -100,14 +101,27 @@ func (c *memConn) outLen() int {
 	return len(c.out)
 }
 
+func (c *memConn) outLenTurn() (int, int) {
+	c.mu.Lock()
+	defer c.mu.Unlock()
+	return len(c.out), c.pushed
+}
+
 func (c *memConn) push(seg []byte) {
 	if len(seg) == 0 {
 		return
 	}
 	c.mu.Lock()
 	c.segs = append(c.segs, append([]byte{}, seg...))
+	c.pushed++
 	c.cond.Broadcast()
 	c.mu.Unlock()
+}
+
+func (c *memConn) over() bool {
+	c.mu.Lock()
+	defer c.mu.Unlock()
+	return c.closed || c.finished
 }
 
 func (c *memConn) setEOF() {
